@@ -1,0 +1,134 @@
+//go:build verif
+
+// Contracts for govc (/verif): C32 — the print/parse codecs of Key, Hash, Signature and CosiSignature. Comment-only file.
+//
+// Vocabulary (all ASSUMED, /verif/govc/trusted/c32.spec): HexOf / UnhexOf / HexOK (encoding/hex), QuoteOf / UnquoteOf / UnquoteOK
+// (strconv.Quote / Unquote), Hex16(m) = fmt.Sprintf("%016x", m), ParseHex64Of / ParseHex64OK (strconv.ParseUint(., 16, 64)).
+// seq(x): the byte string held by x; blen / sub / cat: its algebra; bytestr(b): the Go string string(b).
+// What is VERIFIED here is what the functions do around these library calls: the length tests, which bytes are copied where, the
+// offset at which the mask is parsed, what happens on error. That parsing inverts printing is then a lemma over the proved
+// postconditions, relative to the assumed inverse laws of the library functions.
+
+package crypto
+
+//@ -- s is valid hex for exactly n bytes
+//@ spec HexParses(s string, n mathint) bool = HexOK(s) && blen(UnhexOf(s)) == n
+
+// ───────────── Key ─────────────
+//@ -- (moved here from zz_contracts_c05_verif.go, where it was assumed pure without a value)
+//@ func (k Key) String
+//@   property C32
+//@   pure
+//@   ensures [hex] result == HexOf(seq(k))
+
+//@ func KeyFromString(s)
+//@   property C32
+//@   modifies nothing
+//@   ensures [accept-iff] err == nil <==> HexParses(s, 32)
+//@   ensures [value] err == nil ==> seq(result0) == UnhexOf(s)
+//@   ensures [zero-on-error] err != nil ==> forall i int :: 0 <= i && i < 32 ==> result0[i] == 0
+
+//@ func (k Key) MarshalJSON
+//@   property C32
+//@   modifies nothing
+//@   ensures [json] err == nil && bytestr(result0) == QuoteOf(HexOf(seq(k)))
+
+//@ func (k *Key) UnmarshalJSON(b)
+//@   property C32
+//@   requires k != nil
+//@   modifies *k
+//@   ensures [accept-iff] err == nil <==> UnquoteOK(old(bytestr(b))) && HexParses(UnquoteOf(old(bytestr(b))), 32)
+//@   ensures [value] err == nil ==> seq(*k) == UnhexOf(UnquoteOf(old(bytestr(b))))
+//@   ensures [unchanged-on-error] err != nil ==> *k == old(*k)
+
+// ───────────── Hash ─────────────
+//@ -- (assumed pure without a value in zz_contracts_c04_verif.go / zz_contracts_c05_verif.go; this verified contract replaces them)
+//@ func (h Hash) String
+//@   property C32
+//@   pure
+//@   ensures [hex] result == HexOf(seq(h))
+
+//@ func HashFromString(src)
+//@   property C32
+//@   modifies nothing
+//@   ensures [accept-iff] err == nil <==> HexParses(src, 32)
+//@   ensures [value] err == nil ==> seq(result0) == UnhexOf(src)
+//@   ensures [zero-on-error] err != nil ==> forall i int :: 0 <= i && i < 32 ==> result0[i] == 0
+
+//@ func (h Hash) MarshalJSON
+//@   property C32
+//@   modifies nothing
+//@   ensures [json] err == nil && bytestr(result0) == QuoteOf(HexOf(seq(h)))
+
+//@ func (h *Hash) UnmarshalJSON(b)
+//@   property C32
+//@   requires h != nil
+//@   modifies *h
+//@   ensures [accept-iff] err == nil <==> UnquoteOK(old(bytestr(b))) && HexParses(UnquoteOf(old(bytestr(b))), 32)
+//@   ensures [value] err == nil ==> seq(*h) == UnhexOf(UnquoteOf(old(bytestr(b))))
+//@   ensures [unchanged-on-error] err != nil ==> *h == old(*h)
+
+// ───────────── Signature ─────────────
+//@ -- (moved here from zz_contracts_c05_verif.go, where it was assumed pure without a value)
+//@ func (s Signature) String
+//@   property C32
+//@   pure
+//@   ensures [hex] result == HexOf(seq(s))
+
+//@ func (s Signature) MarshalJSON
+//@   property C32
+//@   modifies nothing
+//@   ensures [json] err == nil && bytestr(result0) == QuoteOf(HexOf(seq(s)))
+
+//@ func (s *Signature) UnmarshalJSON(b)
+//@   property C32
+//@   requires s != nil
+//@   modifies *s
+//@   ensures [accept-iff] err == nil <==> UnquoteOK(old(bytestr(b))) && HexParses(UnquoteOf(old(bytestr(b))), 64)
+//@   ensures [value] err == nil ==> seq(*s) == UnhexOf(UnquoteOf(old(bytestr(b))))
+//@   ensures [unchanged-on-error] err != nil ==> *s == old(*s)
+
+// ───────────── CosiSignature: 128 hex characters of the signature, then the mask as 16 hex characters ─────────────
+//@ func (c CosiSignature) String
+//@   property C32
+//@   pure
+//@   ensures [hex] result == HexOf(seq(c.Signature)) + Hex16(c.Mask)
+
+//@ func (c CosiSignature) MarshalJSON
+//@   property C32
+//@   modifies nothing
+//@   ensures [json] err == nil && bytestr(result0) == QuoteOf(HexOf(seq(c.Signature)) + Hex16(c.Mask))
+
+//@ -- the whole unquoted string must be hex of 72 bytes (the last 8 are decoded but not used); the mask is parsed from the characters
+//@ -- after the first 128. On an error after the length test the signature bytes have already been overwritten, and the mask is
+//@ -- assigned whatever ParseUint returned (the commitments map is never touched).
+//@ func (c *CosiSignature) UnmarshalJSON(b)
+//@   property C32
+//@   requires c != nil
+//@   modifies c.Signature, c.Mask
+//@   ensures [accept-iff] err == nil <==> UnquoteOK(old(bytestr(b))) && HexParses(UnquoteOf(old(bytestr(b))), 72) && ParseHex64OK(UnquoteOf(old(bytestr(b)))[128:])
+//@   ensures [value] err == nil ==> seq(c.Signature) == sub(UnhexOf(UnquoteOf(old(bytestr(b)))), 0, 64) && c.Mask == ParseHex64Of(UnquoteOf(old(bytestr(b)))[128:])
+
+// ───────────── printing, then parsing, gives the value back (over the postconditions above) ─────────────
+//@ -- K: the bytes of a Key / Hash (n == 32) or Signature (n == 64). T.String() is HexOf(K) ([hex]); KeyFromString / HashFromString
+//@ -- accept it ([accept-iff]) and return K ([value]).
+//@ lemma HexPrintParse(K mathint, n mathint)
+//@   property C32
+//@   requires blen(K) == n && (n == 32 || n == 64)
+//@   ensures [accepted] HexParses(HexOf(K), n)
+//@   ensures [same] UnhexOf(HexOf(K)) == K
+
+//@ -- T.MarshalJSON() is QuoteOf(HexOf(K)) ([json]); (*T).UnmarshalJSON accepts it and stores K
+//@ lemma JSONPrintParse(K mathint, n mathint)
+//@   property C32
+//@   requires blen(K) == n && (n == 32 || n == 64)
+//@   ensures [accepted] UnquoteOK(QuoteOf(HexOf(K))) && HexParses(UnquoteOf(QuoteOf(HexOf(K))), n)
+//@   ensures [same] UnhexOf(UnquoteOf(QuoteOf(HexOf(K)))) == K
+
+//@ -- CosiSignature with signature bytes S and mask m: String() is HexOf(S) + Hex16(m); UnmarshalJSON of its quoted form accepts,
+//@ -- stores S and m
+//@ lemma CosiPrintParse(S mathint, m uint64)
+//@   property C32
+//@   requires blen(S) == 64
+//@   ensures [accepted] let u == UnquoteOf(QuoteOf(HexOf(S) + Hex16(m))) in UnquoteOK(QuoteOf(HexOf(S) + Hex16(m))) && HexParses(u, 72) && ParseHex64OK(u[128:])
+//@   ensures [same] let u == UnquoteOf(QuoteOf(HexOf(S) + Hex16(m))) in sub(UnhexOf(u), 0, 64) == S && ParseHex64Of(u[128:]) == m
